@@ -110,7 +110,7 @@ def main():
             tag = a.split("=")[1]
     jobs = [(p, k) for p in props for k in range(1, n + 1)]
     results = {}
-    with cf.ThreadPoolExecutor(max_workers=4) as ex:
+    with cf.ThreadPoolExecutor(max_workers=6) as ex:
         futs = {ex.submit(confirm, p, k, srcpat % p if "%s" in srcpat else srcpat, f"{p}-{tag}{k}" if tag else None): (p, k) for p, k in jobs}
         for fu in cf.as_completed(futs):
             name, res = fu.result()
